@@ -1,13 +1,16 @@
 """C10 - the conductor survives faults: no panic, no hang, errors reported, orderly close."""
 from vlib.term import z, to_coq
 from props import cond_common as cc
+from props import c10cnc as cn
 
 ID = 'C10'
 PROP_FILE = 'Props/C10.v'
-EVAL_FILES = ['Oracle/C10Oracle.v']
-CRATES = ['c09']
+EXTRA_PROP_FILES = ['Props/C10Connect.v']
+EVAL_FILES = ['Oracle/C10Oracle.v', 'Oracle/C10CncOracle.v']
+CRATES = ['c09', 'c10cnc']
 MODES = ['debug']
-IMPORTS = 'Require Import V.Base.MachineInt V.Model.Conductor V.Oracle.C09Oracle V.Oracle.C10Oracle.'
+IMPORTS = ('Require Import V.Base.MachineInt V.Model.Conductor V.Oracle.C09Oracle V.Oracle.C10Oracle '
+           'V.Model.Connect V.Model.CncLayout V.Model.Agent V.Oracle.C10CncOracle.')
 PER_CASE_TIMEOUT = 8.0
 CHUNK = 40
 RULE = ('fault histories of up to 70 operations on a full in-process client (harness/c09: real conductor, ring, broadcast transmitter / receiver / '
@@ -33,16 +36,34 @@ def generate(rng, tier):
     n = 500 if tier != 'thorough' else 20000
     for _ in range(n):
         cases.append(cc.gen_history(rng, tier, 'faults' if rng.random() < 0.8 else 'protocol'))
+    # the code around the conductor; own random stream, so that the histories above stay what they were
+    import random
+    cases += cn.generate(random.Random(rng.getrandbits(32) ^ 0xC10), tier)
     return cases
 
 
-impl_line = cc.impl_line
-model_expr = cc.model_expr
-shrink = cc.shrink
+def _mine(case):
+    return case.get('crate') == cn.CRATE
+
+
+def impl_line(case):
+    return cn.impl_line(case) if _mine(case) else cc.impl_line(case)
+
+
+def model_expr(case, mode):
+    return cn.model_expr(case, mode) if _mine(case) else cc.model_expr(case, mode)
+
+
+def shrink(case):
+    return [] if _mine(case) else cc.shrink(case)
+
+
 normalize = cc.normalize
 
 
 def oracle_expr(case, mode, obs):
+    if _mine(case):
+        return cn.oracle_expr(case, mode, obs)
     c = case['cfg']
     if isinstance(obs, int) or obs[0] != 'list':
         return 'false'     # the whole case crashed / hung: no per-operation observations
@@ -50,6 +71,8 @@ def oracle_expr(case, mode, obs):
 
 
 def nontrivial(case):
+    if _mine(case):
+        return cn.nontrivial(case)
     names = [o[0] for o in case['ops']]
     fault = any(n in ('wl', 'wo', 'cl', 'hc') for n in names) or any(o[0] == 'we' and o[1] in ('ct', 'er') for o in case['ops']) \
         or any(o[0] == 'tk' and o[1] > case['cfg'][3] for o in case['ops'])
